@@ -36,10 +36,22 @@ impl Scalar for f64 {
 // into a view must still compile against the harness, because detecting it is C17's job.
 pub trait DynView<T: Float>: View<T> {
     fn clone_box(&self) -> Box<dyn DynView<T>>;
+    fn as_any(&self) -> &dyn std::any::Any;
+    /// `Clone::clone_from` of the concrete type (restore this instance from `src`)
+    fn clone_from_dyn(&mut self, src: &dyn DynView<T>);
 }
 impl<T: Float, V: View<T> + Clone + 'static> DynView<T> for V {
     fn clone_box(&self) -> Box<dyn DynView<T>> {
         Box::new(self.clone())
+    }
+    fn as_any(&self) -> &dyn std::any::Any {
+        self
+    }
+    fn clone_from_dyn(&mut self, src: &dyn DynView<T>) {
+        match src.as_any().downcast_ref::<V>() {
+            Some(s) => self.clone_from(s),
+            None => panic!("HARNESS: clone_from between different view types"),
+        }
     }
 }
 
@@ -57,6 +69,9 @@ unsafe impl<T: Float> Send for Dyn<T> {}
 impl<T: Float> Clone for Dyn<T> {
     fn clone(&self) -> Self {
         Dyn(self.0.clone_box())
+    }
+    fn clone_from(&mut self, src: &Self) {
+        self.0.clone_from_dyn(&*src.0)
     }
 }
 impl<T: Float> View<T> for Dyn<T> {
